@@ -240,45 +240,70 @@ func anyLeaves() []aleaf {
 	return []aleaf{
 		{nil, false}, {true, false}, {"a\"\\\n<é", false}, {int64(math.MinInt64), false}, {1.5, false}, {"\xff\xed\xa0\x80", false},
 		{math.NaN(), true},
+		// a json.Number (what variables decoded with UseNumber carry) that is not a number literal
+		{json.Number("1,\"admin\":true"), true},
 		{uint64(math.MaxUint64), false}, {1e21, false}, {math.Copysign(0, -1), false}, {json.Number("12345678901234567890123"), false},
-		{float32(0.1), false}, {int8(-128), false}, {math.Inf(-1), true},
+		{float32(0.1), false}, {int8(-128), false}, {math.Inf(-1), true}, {json.Number(""), true},
 	}
 }
 
-func buildAny(n *tnode, leaves []aleaf) (v any, unrep bool) {
+// buildAny returns the Go value, the value its JSON must decode to (anyValue where a leaf is not
+// representable), and whether it contains such a leaf.
+func buildAny(n *tnode, leaves []aleaf) (v any, expected any, unrep bool) {
 	switch n.K {
 	case "leaf":
-		return leaves[n.Leaf].v, leaves[n.Leaf].unrepresentable
+		l := leaves[n.Leaf]
+		if l.unrepresentable {
+			return l.v, anyValue{}, true
+		}
+		return l.v, l.v, false
 	case "array":
 		arr := []any{}
+		exp := []any{}
 		for _, k := range n.Kids {
-			kv, ku := buildAny(k, leaves)
+			kv, ke, ku := buildAny(k, leaves)
 			arr = append(arr, kv)
+			exp = append(exp, ke)
 			unrep = unrep || ku
 		}
-		return arr, unrep
+		return arr, exp, unrep
 	default:
 		m := map[string]any{}
+		exp := map[string]any{}
 		for i, k := range n.Kids {
-			kv, ku := buildAny(k, leaves)
+			kv, ke, ku := buildAny(k, leaves)
 			m[unhx(n.Keys[i])] = kv
+			exp[unhx(n.Keys[i])] = ke
 			unrep = unrep || ku
 		}
-		return m, unrep
+		return m, exp, unrep
 	}
 }
 
-var anyPaths = []string{"MarshalAny", "MarshalMap", "Omittable[any].MarshalGQL", "Omittable[any].MarshalJSON"}
+var anyPaths = []string{"MarshalAny", "MarshalMap", "Omittable[any].MarshalGQL", "Omittable[any].MarshalJSON",
+	"FieldSet{MarshalAny}", "Array{MarshalAny}"}
 
-// checkAnyTree: the Go value v through one path. A value JSON cannot represent (NaN, Inf) must be
-// reported (an error, or a panic carrying an error, with nothing written) or written as valid
-// JSON; it must never produce an invalid text silently.
 func checkAnyTree(path string, n *tnode, leaves []aleaf) (sig, what string, applicable bool) {
-	v, unrep := buildAny(n, leaves)
-	var m graphql.Marshaler
+	v, expected, unrep := buildAny(n, leaves)
+	return checkAnyValue(path, v, expected, unrep)
+}
+
+// checkAnyValue: the Go value v through one path; expected is what the bytes must decode to.
+// A value JSON cannot represent (unrep: NaN, Inf, an invalid json.Number / RawMessage, a failing
+// MarshalJSON, an unsupported kind ...) must be REPORTED - an error, or a panic carrying an error
+// (gqlgen recovers it into an error response and discards the buffer) - or be written as valid
+// JSON with exactly one value in its place. It must never put an invalid token in the output.
+func checkAnyValue(path string, v, expected any, unrep bool) (sig, what string, applicable bool) {
+	return checkAnyValueTagged(path, v, expected, unrep, "")
+}
+
+// utf8Tag, when set, names the class used if the only thing wrong with the output is ill-formed
+// UTF-8 that the value itself carried in bytes it declared to be JSON already.
+func checkAnyValueTagged(path string, v, expected any, unrep bool, utf8Tag string) (sig, what string, applicable bool) {
 	var out []byte
 	var pan any
 	var err error
+	inContainer := false
 	switch path {
 	case "MarshalAny":
 		out, pan = marshalToBytes(graphql.MarshalAny(v))
@@ -289,10 +314,19 @@ func checkAnyTree(path string, n *tnode, leaves []aleaf) (sig, what string, appl
 		}
 		out, pan = marshalToBytes(graphql.MarshalMap(mv))
 	case "Omittable[any].MarshalGQL":
-		m = graphql.OmittableOf[any](v)
-		out, pan = marshalToBytes(m)
+		out, pan = marshalToBytes(graphql.OmittableOf[any](v))
 	case "Omittable[any].MarshalJSON":
 		out, err = json.Marshal(graphql.OmittableOf[any](v))
+	case "FieldSet{MarshalAny}":
+		inContainer = true
+		out, pan = marshalToBytes(fieldSet([]string{"value", "next"}, []graphql.Marshaler{graphql.MarshalAny(v), graphql.True}))
+		expected = map[string]any{"value": expected, "next": true}
+	case "Array{MarshalAny}":
+		inContainer = true
+		out, pan = marshalToBytes(graphql.Array{graphql.MarshalAny(v), graphql.Null})
+		expected = []any{expected, nil}
+	default:
+		common.Broken("unknown any path %q", path)
 	}
 	if unrep {
 		reported := err != nil
@@ -300,23 +334,39 @@ func checkAnyTree(path string, n *tnode, leaves []aleaf) (sig, what string, appl
 			reported = true
 		}
 		switch {
-		case reported && len(out) == 0:
+		case reported && (len(out) == 0 || inContainer):
+			// inside a FieldSet/Array the container has already written its opening bytes; the
+			// panic unwinds the whole response and the buffer is discarded
 			return "", "", true
 		case reported:
 			return path + ":unrepresentable-value-partial-output", fmt.Sprintf("%s(%#v) reported an error but wrote %s", path, v, show(out)), true
 		case pan != nil:
 			return path + ":panic", fmt.Sprintf("%s(%#v) panicked with a non-error: %v", path, v, pan), true
-		case validateJSON(out) != nil:
-			return path + ":unrepresentable-value-invalid-output-no-error", fmt.Sprintf("%s(%#v) reported nothing and wrote %s, which is not a JSON text", path, v, show(out)), true
+		}
+		if _, class, w := checkWire(out, nil, expected, false); class != "" {
+			if class == "invalid-json:invalid-utf8" && utf8Tag != "" {
+				if rep := sanitizeBytes(out); validateJSON(rep) == nil {
+					if d, err := decodeJSON(rep); err == nil && jsonEqual(expected, d) {
+						return path + ":" + utf8Tag, fmt.Sprintf("%s(%#v) reported nothing and wrote %s, which is not UTF-8", path, v, show(out)), true
+					}
+				}
+			}
+			if class == "decoded-differs" {
+				return path + ":unrepresentable-value-changes-structure-no-error", fmt.Sprintf("%s(%#v) reported nothing: %s", path, v, w), true
+			}
+			return path + ":unrepresentable-value-invalid-output-no-error", fmt.Sprintf("%s(%#v) reported nothing and wrote %s, which is not a JSON text (%s)", path, v, show(out), class), true
 		}
 		return "", "", true
 	}
 	if err != nil {
 		return path + ":marshal-error", fmt.Sprintf("%s(%#v) returned %v", path, v, err), true
 	}
-	d, class, w := checkWire(out, pan, v, false)
+	d, class, w := checkWire(out, pan, expected, false)
 	if class != "" {
 		return path + ":" + class, fmt.Sprintf("%s(%#v): %s", path, v, w), true
+	}
+	if d == nil {
+		return "", "", true // null is handled by the nullable wrapper, never handed to Unmarshal*
 	}
 	switch path {
 	case "MarshalAny":
@@ -333,7 +383,7 @@ func checkAnyTree(path string, n *tnode, leaves []aleaf) (sig, what string, appl
 
 func runAnyDomain(thorough bool) {
 	leaves := anyLeaves()
-	nl := 7
+	nl := 8
 	if thorough {
 		nl = len(leaves)
 	}
@@ -361,7 +411,7 @@ func runAnyDomain(thorough bool) {
 		}
 	}
 	jobs, l2 := depth3Jobs(nl, keySets, eval)
-	runDomain("any-map-compositions", fmt.Sprintf("every Go value of depth <= 3 built from []any (0..2 elements) and map[string]any (%d key sets) over %d leaves (incl. ill-formed strings, NaN) through %d paths; %d values of depth <= 2", len(keySets), nl, len(anyPaths), l2), jobs)
+	runDomain("any-map-compositions", fmt.Sprintf("every Go value of depth <= 3 built from []any (0..2 elements) and map[string]any (%d key sets) over %d leaves (incl. ill-formed strings, NaN, invalid json.Number) through %d paths; %d values of depth <= 2", len(keySets), nl, len(anyPaths), l2), jobs)
 }
 
 // ---- Omittable[T] for concrete T ---------------------------------------------------------------
